@@ -79,14 +79,20 @@ def run(tier, seed):
     items, asts = [], []
     for i in range(150 if quick else 3000):
         s = rng.randrange(1 << 30)
-        ast, src = genprog.gen_expr_program(s)
+        ast, src = genprog.gen_expr_program(s, wide=(i % 3 == 2))      # every third program: 4-byte unsigned and 8-byte operands, constants beyond 32 bits
         items.append(('expr:%d' % s, src, [rng.choice(['-O1', '-O2', '-O3'])] + (['-fstrings-as-u8'] if i % 2 else []) + (['-funsafe-string-indexing'] if i % 7 == 0 else [])))
         asts.append(ast)
+    import time, sys
+    T0 = time.time()
+    def lap(what):
+        print('[C14 %6.1fs] %s' % (time.time() - T0, what), file=sys.stderr)
     progs = runner.compile_programs(items)
+    lap('compiled')
     root = runner.scratch_dir()
     nsub = 0
     try:
         runner.build_programs(progs, root)
+        lap('built')
         good = []
         for p, ast in zip(progs, asts):
             if not p.ok or not p.bin:
@@ -103,7 +109,9 @@ def run(tier, seed):
         BYTES = [0, 1, 2, 7, 31, 32, 47, 48, 57, 65, 97, 122, 127, 128, 129, 200, 254, 255]
         swcases, nsweeps, dropped = c06.sweeps_for(chk, good, rng, 8 if quick else 16, 4, root, states_of=lambda p: p.hot,
                                                    bytes_of=lambda p: BYTES + [rng.randrange(256) for _ in range(4)])
-        swres, swst = runner.validate_sweeps(swcases, workers=4, parallel=4)
+        lap('swept')
+        swres, swst = runner.validate_sweeps(swcases, workers=2, parallel=8)
+        lap('sweeps validated %s' % (swst.get('shard_walls'),))
         acc = undef = 0
         for c, (v, reps) in zip(swcases, swres):
             for r in reps:
@@ -125,10 +133,11 @@ def run(tier, seed):
     finally:
         shutil.rmtree(root, ignore_errors=True)
     # a smaller set through the source semantics as well (machine vs Lang on operands loaded from input bytes)
-    k = 6 if quick else 120
+    k = 3 if quick else 60
     progs2 = runner.compile_programs(items[:k], want=('machine', 'codegen'))
     pairs = [(p, a) for p, a in zip(progs2, asts[:k]) if p.ok]
-    reports, st, cases = conform.explore(pairs, maxlen=4, per_cell=1, timeout=1500 if quick else 9000, budget=600 if quick else 20000)
+    reports, st, cases = conform.explore(pairs, maxlen=4, per_cell=1, timeout=1500 if quick else 9000, budget=300 if quick else 8000)
+    lap('conform done')
     kinds = collections.Counter()
     for (p, ast), reps in zip(pairs, reports):
         for r in reps:
